@@ -225,34 +225,27 @@ def project(events):
     return [e for e in events if not (e["kind"] in UNREAD and not re.fullmatch(r"c\d+", e["g"] or ""))]
 
 
-def trace_def(events):
+def trace_def(events, name="tr", lits=None):
     """Coq text defining tr; repeated byte-string literals are shared through definitions"""
     term = m5.trace_term(events)
-    lits = {}
+    lits = {} if lits is None else lits
+    known = len(lits)
 
     def sub(m):
         return lits.setdefault(m.group(0), "s_%d" % len(lits))
     term = re.sub(r"\[x[0-9a-f]{2}(?:;x[0-9a-f]{2})*\]", sub, term)
-    defs = "".join("Definition %s : str := %s.\n" % (v, k) for k, v in lits.items())
-    return defs + "Definition tr : trace := %s.\n" % term
+    defs = "".join("Definition %s : str := %s.\n" % (v, k) for k, v in list(lits.items())[known:])
+    return defs + "Definition %s : trace := %s.\n" % (name, term)
 
 
 def parse_eval(txt):
-    """'(None, [])' / '(Some 12, [(5, 4); (9, 1)])' (with optional %nat / %N)"""
+    """'[(None, []); (Some 12, [(5, 4); (9, 1)])]' (with optional %nat / %N) -> [(rej, fails)]; strict"""
+    import ast
     t = re.sub(r"%(nat|N)", "", txt.strip())
-    m = re.fullmatch(r"\((None|Some (\d+)),\s*\[(.*)\]\)", t, re.S)
-    if not m:
+    if not re.fullmatch(r"[\[\]\(\),; 0-9\s]*(?:(?:None|Some)[\[\]\(\),; 0-9\s]*)*", t):
         raise RuntimeError("unexpected eval term: " + t[:300])
-    rej = None if m.group(1) == "None" else int(m.group(2))
-    fails = []
-    body = m.group(3).strip()
-    if body:
-        for it in body.split(";"):
-            mm = re.fullmatch(r"\((\d+),\s*(\d+)\)", it.strip())
-            if not mm:
-                raise RuntimeError("unexpected failure item: " + it[:100])
-            fails.append((int(mm.group(1)), int(mm.group(2))))
-    return rej, fails
+    v = ast.literal_eval(t.replace(";", ",").replace("Some ", ""))
+    return [(r, [tuple(f) for f in fs]) for r, fs in v]
 
 
 def term_items(events):
@@ -315,18 +308,26 @@ def run(tier, seed):
         if harness_ok and ok:
             from concurrent.futures import ThreadPoolExecutor
 
-            def ev(i):
-                body = trace_def(project(outs[i]["events"])) + "Definition R := Eval vm_compute in eval_trace tr.\n"
-                return i, parse_eval(coq_eval(work, "T_%d" % i, IMPORTS, body, "R"))
+            BATCH = 6
+
+            def ev(j):
+                idx = list(range(j, min(j + BATCH, len(scs))))
+                lits = {}
+                body = "".join(trace_def(project(outs[i]["events"]), "tr_%d" % i, lits) for i in idx)
+                body += "Definition R := Eval vm_compute in [%s].\n" % "; ".join("eval_trace tr_%d" % i for i in idx)
+                return idx, parse_eval(coq_eval(work, "T_%d" % j, IMPORTS, body, "R"))
             with ThreadPoolExecutor(max_workers=16) as ex:
-                for i, (rej, fails) in ex.map(ev, range(len(scs))):
-                    nevents += len(outs[i]["events"])
-                    if rej is not None:
-                        rejected.append((i, rej))
-                    if fails:
-                        mon_fail.append((i, fails))
-                    for s in command_stats(outs[i]["events"]):
-                        stats["%s/%s/%s" % s] += 1
+                for idx, rs in ex.map(ev, range(0, len(scs), BATCH)):
+                    if len(rs) != len(idx):
+                        raise RuntimeError("evaluation lost a trace")
+                    for i, (rej, fails) in zip(idx, rs):
+                        nevents += len(outs[i]["events"])
+                        if rej is not None:
+                            rejected.append((i, rej))
+                        if fails:
+                            mon_fail.append((i, fails))
+                        for st in command_stats(outs[i]["events"]):
+                            stats["%s/%s/%s" % st] += 1
         probes = sum(1 for o in outs for e in o["events"] if e["kind"] == "probe-sent")
         waits_false = sum(1 for o in outs for e in o["events"] if e["kind"] == "waiter" and not e["args"][1])
         deadlines = sum(1 for o in outs for e in o["events"] if e["kind"] == "drain-deadline")
